@@ -145,6 +145,94 @@ func classifyMapRange(w *World, p *packages.Package, fd *ast.FuncDecl, rs *ast.R
 	}
 	declaredInside := func(o types.Object) bool { return o != nil && o.Pos() >= rs.Body.Pos() && o.Pos() <= rs.Body.End() }
 
+	// A7: existential scan with an element-independent result: the body is one `if c(elem) { return k… }`
+	// whose returned expressions mention neither loop variable (pure condition: only calls of
+	// side-effect-free library predicates and accessor methods)
+	mentionsLoopVar := func(n ast.Node) bool {
+		found := false
+		ast.Inspect(n, func(m ast.Node) bool {
+			if id, ok := m.(*ast.Ident); ok && info.Uses[id] != nil && (info.Uses[id] == kobj || info.Uses[id] == vobj) {
+				found = true
+			}
+			return true
+		})
+		return found
+	}
+	pureCond := func(e ast.Expr) bool {
+		pure := true
+		ast.Inspect(e, func(m ast.Node) bool {
+			if c, ok := m.(*ast.CallExpr); ok {
+				f, _ := typeutil.Callee(info, c).(*types.Func)
+				switch {
+				case f == nil:
+					if id, ok := c.Fun.(*ast.Ident); !ok || (id.Name != "len" && id.Name != "cap") {
+						if tv, ok := info.Types[c.Fun]; !ok || !tv.IsType() {
+							pure = false
+						}
+					}
+				case f.FullName() == "slices.Contains":
+				case f.Name() == "WriteRegisters" || f.Name() == "ReadRegisters" || f.Name() == "InstructionType":
+				default:
+					pure = false
+				}
+			}
+			return true
+		})
+		return pure
+	}
+	if len(rs.Body.List) == 1 {
+		if is, ok := rs.Body.List[0].(*ast.IfStmt); ok && is.Init == nil && is.Else == nil && pureCond(is.Cond) {
+			// existential
+			if len(is.Body.List) == 1 {
+				if ret, ok := is.Body.List[0].(*ast.ReturnStmt); ok && !mentionsLoopVar(ret) {
+					return "auto:existential", "the loop returns an element-independent result as soon as any element satisfies a pure condition"
+				}
+			}
+			// A8: unique match or refuse: `if c(elem) { if acc != nil { return k… }; acc = elem }`
+			if len(is.Body.List) == 2 {
+				inner, ok1 := is.Body.List[0].(*ast.IfStmt)
+				as, ok2 := is.Body.List[1].(*ast.AssignStmt)
+				if ok1 && ok2 && inner.Init == nil && inner.Else == nil && len(inner.Body.List) == 1 && len(as.Lhs) == 1 && len(as.Rhs) == 1 && as.Tok == token.ASSIGN {
+					ret, isRet := inner.Body.List[0].(*ast.ReturnStmt)
+					be, isBin := ast.Unparen(inner.Cond).(*ast.BinaryExpr)
+					acc, isId := as.Lhs[0].(*ast.Ident)
+					if isRet && isBin && isId && be.Op == token.NEQ && !mentionsLoopVar(ret) && isLoopVar(as.Rhs[0]) {
+						l, lok := ast.Unparen(be.X).(*ast.Ident)
+						if lok && info.Uses[l] == info.Uses[acc] && types.ExprString(ast.Unparen(be.Y)) == "nil" && !declaredInside(info.Uses[acc]) {
+							// acc must be nil before the loop: its declaration is `var acc T` with no value
+							declaredNil := false
+							ast.Inspect(fd.Body, func(m ast.Node) bool {
+								if vs, ok := m.(*ast.ValueSpec); ok && len(vs.Values) == 0 {
+									for _, nm := range vs.Names {
+										if info.Defs[nm] == info.Uses[acc] && vs.End() < rs.Pos() {
+											declaredNil = true
+										}
+									}
+								}
+								return true
+							})
+							// and not assigned between the declaration and the loop
+							assignedBefore := false
+							ast.Inspect(fd.Body, func(m ast.Node) bool {
+								if a2, ok := m.(*ast.AssignStmt); ok && a2 != as && a2.End() < rs.Pos() {
+									for _, l2 := range a2.Lhs {
+										if id2, ok := l2.(*ast.Ident); ok && info.Uses[id2] == info.Uses[acc] {
+											assignedBefore = true
+										}
+									}
+								}
+								return true
+							})
+							if declaredNil && !assignedBefore {
+								return "auto:unique-match-or-refuse", "the loop keeps the single element satisfying a pure condition and returns an element-independent result when a second one is found: the outcome does not depend on the order"
+							}
+						}
+					}
+				}
+			}
+		}
+	}
+
 	// A2: appends to a slice that is sorted before any other use
 	var appended types.Object
 	onlyAppend := true
